@@ -30,7 +30,9 @@ PLAIN_VOCAB = ["a", "b", "foo", "bar baz", "1", "-1", "0x1F", "0o7", "010", "1_0
                "2001-01-01 10:00:00", "2001-01-01T10:00:00.5Z", "<<", "=", "x y z", "a-b", "a.b", "http://x.y/z?q=1",
                "key with spaces", ".", "..", "_", "1_", "0b101", "+1", "12e03", "190:20:30", "v", "k", "word",
                "\xe9t\xe9", "日本", "\U0001F600", "a\xa0b", "p/q", "a+b", "$x", "(y)", "a;b", "x=y", "~x", "a'b", "a\"b",
-               "a!b", "a&b", "a*b", "a|b", "a>b", "a%b", "a@b", "a`b", "a#b", "-a", "-1.5e-3", "0", "007", "0.", "+.inf"]
+               "a!b", "a&b", "a*b", "a|b", "a>b", "a%b", "a@b", "a`b", "a#b", "-a", "-1.5e-3", "0", "007", "0.", "+.inf",
+               # characters a position counter might treat specially: zero-width, combining, wide, directional
+               "a\u200bb", "z\u200dw\u200cj", "w\u2060j", "e\u0301", "\uff21\uff22", "\u202eabc", "a\u00adb", "\ufe0f x"]
 
 _INDICATORS = set("-?:,[]{}#&*!|>'\"%@`")
 
